@@ -23,7 +23,10 @@ func ScanPngHeader(r io.ReadSeeker) (header meta.ExifHeader, err error) {
 	buf := make([]byte, 8)
 
 	var n int
-	n, err = r.Read(buf)
+	n, err = io.ReadFull(r, buf)
+	if err == io.ErrUnexpectedEOF {
+		err = nil // a stream shorter than the signature is "not a PNG", as before
+	}
 	if err != nil {
 		return
 	}
@@ -36,7 +39,7 @@ func ScanPngHeader(r io.ReadSeeker) (header meta.ExifHeader, err error) {
 
 	for {
 		// 5.3 Chunk layout
-		n, err = r.Read(buf)
+		n, err = io.ReadFull(r, buf)
 		if err != nil {
 			break
 		}
